@@ -11,8 +11,11 @@ typedef World<HexMesh> W;
 static Oracles g_orc;
 
 static std::vector<int> hf_verts(W &w, HFH hf) {
+    // total, with the defaults of the model (an out-of-range face has no halfedges, an out-of-range edge is (0,0))
     std::vector<int> r;
-    for (auto he : w.mesh.halfface(hf).halfedges()) r.push_back(w.mesh.halfedge(he).from_vertex().idx());
+    if (hf.idx() < 0 || hf.idx() >= 2 * (int)w.mesh.n_faces()) return r;
+    for (auto he : w.mesh.halfface(hf).halfedges())
+        r.push_back(he.idx() >= 0 && he.idx() < 2 * (int)w.mesh.n_edges() ? w.mesh.halfedge(he).from_vertex().idx() : 0);
     return r;
 }
 
@@ -180,6 +183,22 @@ static void oracle_orientation_tables(StepOut &out) {
     }
 }
 
+// the quantifier of the navigation statements: a mesh of hexes in which no halfface belongs to two live cells, every
+// stored handle designates a live entity and the face incidences (if present) are those of the definitions
+static bool mesh_clean(W &w) {
+    auto &m = w.mesh;
+    std::set<int> owner;
+    for (int c = 0; c < (int)m.n_cells(); ++c) if (!m.is_deleted(CH(c))) for (auto hf : m.cell(CH(c)).halffaces()) {
+        if (!hf.is_valid() || hf.idx() >= 2 * (int)m.n_faces() || m.is_deleted(hf.face_handle())) return false;
+        if (!owner.insert(hf.idx()).second) return false;
+        if (m.has_face_bottom_up_incidences() && m.incident_cell(hf) != CH(c)) return false;
+    }
+    for (int f = 0; f < (int)m.n_faces(); ++f) if (!m.is_deleted(FH(f))) for (auto he : m.face(FH(f)).halfedges())
+        if (!he.is_valid() || he.idx() >= 2 * (int)m.n_edges() || m.is_deleted(he.edge_handle())) return false;
+    if (m.has_face_bottom_up_incidences()) for (int h = 0; h < 2 * (int)m.n_faces(); ++h) { auto c = m.incident_cell(HFH(h)); if (c.is_valid() && !owner.count(h)) return false; }
+    return true;
+}
+
 static void oracle_hex(W &w, StepOut &out, bool tainted_shape, bool all_layout) {
     auto &m = w.mesh;
     if (!tainted_shape) {
@@ -188,6 +207,7 @@ static void oracle_hex(W &w, StepOut &out, bool tainted_shape, bool all_layout) 
         for (int c = 0; c < (int)m.n_cells(); ++c) if (!m.is_deleted(CH(c)) && m.cell(CH(c)).halffaces().size() != 6) {
             out.fail("C16", "live cell " + std::to_string(c) + " has " + std::to_string(m.cell(CH(c)).halffaces().size()) + " halffaces"); return; }
     }
+    if (!mesh_clean(w)) return;
     for (int ci = 0; ci < (int)m.n_cells(); ++ci) {
         CH c(ci);
         if (m.is_deleted(c)) continue;
